@@ -3,10 +3,10 @@
 # Prints DETECTED / MISSED. Development tool, not a MANIFEST command.
 patch="$1"; prop="$2"; tier="${3:-quick}"
 cd /verif || exit 2
-if ! git -C /repo diff --quiet; then echo "repo working tree not clean"; exit 2; fi
+if ! git -C /repo diff --quiet HEAD; then echo "repo working tree not clean"; exit 2; fi
 git -C /repo apply "$(realpath "$patch")" || { echo "patch does not apply: $patch"; exit 2; }
 out=$(./vcheck "$prop" --tier "$tier" 2>&1); code=$?
-git -C /repo checkout -- .
+git -C /repo reset -q --hard HEAD
 nviol=$(echo "$out" | grep -c "^VIOLATION")
 if [ $code -eq 1 ] && [ $nviol -gt 0 ]; then echo "DETECTED $(basename $patch) by $prop ($nviol violation signature(s)): $(echo "$out" | grep 'signature:' | head -2 | tr '\n' ' ')"; 
 elif [ $code -eq 2 ]; then echo "MACHINERY($code) $(basename $patch) by $prop: $(echo "$out" | grep -E 'MACHINERY|error' | head -3)";
